@@ -6,6 +6,7 @@ import (
 	"fmt"
 	"os"
 	"path/filepath"
+	"regexp"
 	"runtime"
 	"sort"
 	"strconv"
@@ -143,8 +144,56 @@ func groupObligations(vs []Verdict) map[string]*Obligation {
 		o.OK = anySat || !allUnsat
 		o.CoverUndecided = !anySat && !allUnsat
 	}
+	// aggregate safety obligations: F/safe-all:<kind> holds when no site of that kind in F has a countermodel.
+	// Per-site names carry ordinals, which shift when sites are added or removed; the aggregate keeps a function
+	// that was free of, say, unproved reflect.Value.Type calls from silently gaining one.
+	agg := map[string]*Obligation{}
+	for name, o := range obs {
+		m := safeSiteRe.FindStringSubmatch(name)
+		if m == nil {
+			continue
+		}
+		key := m[1] + "/safe-all:" + m[2]
+		a := agg[key]
+		if a == nil {
+			a = &Obligation{Name: key, OK: true, Func: o.Func}
+			agg[key] = a
+		}
+		for _, p := range o.Props {
+			if !hasProp(a.Props, p) {
+				a.Props = append(a.Props, p)
+			}
+		}
+		sat := false
+		for _, v := range o.Verdicts {
+			if v.Result == "sat" {
+				sat = true
+				a.Verdicts = append(a.Verdicts, v)
+			}
+		}
+		if sat {
+			a.OK = false
+		} else if len(a.Verdicts) == 0 && len(o.Verdicts) > 0 {
+			a.Verdicts = append(a.Verdicts, o.Verdicts[0])
+		}
+	}
+	for k, a := range agg {
+		if !a.OK {
+			// keep only the failing verdicts for the report
+			var f []Verdict
+			for _, v := range a.Verdicts {
+				if v.Result == "sat" {
+					f = append(f, v)
+				}
+			}
+			a.Verdicts = f
+		}
+		obs[k] = a
+	}
 	return obs
 }
+
+var safeSiteRe = regexp.MustCompile(`^(.*)/safe:([^#]+)#\d+$`)
 
 // ---------------------------------------------------------------------------------------------
 // Property -> functions
@@ -251,7 +300,7 @@ func isAutoObligation(name string) bool {
 		return false
 	}
 	k := name[i+1:]
-	for _, p := range []string{"safe:", "lockset:", "own:", "order#", "alias:", "lock-balance:", "bcast-locked#"} {
+	for _, p := range []string{"safe:", "safe-all:", "lockset:", "own:", "order#", "alias:", "lock-balance:", "bcast-locked#"} {
 		if strings.HasPrefix(k, p) {
 			return true
 		}
